@@ -477,6 +477,11 @@ func chanRole(ch ast.Expr, f *fn) (role string, worker gor) {
 	return "local", ""
 }
 
+func escaped(lit *ast.FuncLit, f *fn) {
+	p := newPseudo(f, lit, GSpawned, "escaped")
+	walkStmts(lit.Body.List, p, wstate{})
+}
+
 func newPseudo(parent *fn, lit *ast.FuncLit, fixed gor, tag string) *fn {
 	pseudoN++
 	p := &fn{key: fmt.Sprintf("%s$%s%d", parent.root.key, tag, pseudoN), ftype: lit.Type, body: lit.Body,
@@ -607,7 +612,15 @@ func walk(n ast.Node, f *fn, ws wstate) {
 	case *ast.ExprStmt:
 		walkExpr(x.X, f, ws)
 	case *ast.AssignStmt:
-		for _, r := range x.Rhs {
+		for i, r := range x.Rhs {
+			// a literal stored anywhere but in a local variable may run in any
+			// goroutine: it is analysed as a goroutine of its own
+			if lit, ok := r.(*ast.FuncLit); ok && i < len(x.Lhs) {
+				if _, local := x.Lhs[i].(*ast.Ident); !local {
+					escaped(lit, f)
+					continue
+				}
+			}
 			walkExpr(r, f, ws)
 		}
 		if len(x.Lhs) == len(x.Rhs) {
@@ -673,6 +686,10 @@ func walk(n ast.Node, f *fn, ws wstate) {
 		walkExpr(x.Call, f, ws)
 	case *ast.ReturnStmt:
 		for _, r := range x.Results {
+			if lit, ok := r.(*ast.FuncLit); ok {
+				escaped(lit, f)
+				continue
+			}
 			walkExpr(r, f, ws)
 		}
 	case *ast.IfStmt:
@@ -774,7 +791,11 @@ func walk(n ast.Node, f *fn, ws wstate) {
 		case "action":
 			handOver(x, worker, f, nil, 0, true)
 		default:
-			walkExpr(x.Value, f, ws)
+			if lit, ok := x.Value.(*ast.FuncLit); ok {
+				escaped(lit, f)
+			} else {
+				walkExpr(x.Value, f, ws)
+			}
 		}
 	case *ast.LabeledStmt:
 		walk(x.Stmt, f, ws)
@@ -856,7 +877,11 @@ func walkExpr(e ast.Expr, f *fn, ws wstate) {
 	case *ast.TypeAssertExpr:
 		walkExpr(x.X, f, ws)
 	case *ast.KeyValueExpr:
-		walkExpr(x.Value, f, ws)
+		if lit, ok := x.Value.(*ast.FuncLit); ok {
+			escaped(lit, f)
+		} else {
+			walkExpr(x.Value, f, ws)
+		}
 	case *ast.CompositeLit:
 		for _, el := range x.Elts {
 			walkExpr(el, f, ws)
